@@ -600,6 +600,11 @@ def oracle(case, obs):
                         fails.append({"key": "copy-partner-not-the-copy", "what": f"step {i}: partner getters of the copies give {views[c]['partner']} / {views[c2]['partner']}, expected {c2} / {c}"})
                     if views[c]["partner"] in (a, pa) or views[c2]["partner"] in (a, pa):
                         fails.append({"key": "copy-linked-to-original", "what": f"step {i}: a copy is linked to an original"})
+                    # the copy carries the survey parameters of its source (everything but the identifiers)
+                    pa_src = [kv for kv in (views[a]["live"] or []) if kv[0] not in (0, 1, 3)]
+                    pa_cp = [kv for kv in (views[c]["live"] or []) if kv[0] not in (0, 1, 3)]
+                    if roles.get(a) != "DC" and pa_src != pa_cp:
+                        fails.append({"key": "copy-parameters-differ", "what": f"step {i}: survey parameters of the copy {str(pa_cp)[:100]} differ from the source's {str(pa_src)[:100]}"})
                     if views[c2]["cls"] != views[pa]["cls"] or views[c]["cls"] != views[a]["cls"]:
                         fails.append({"key": "copy-class", "what": f"step {i}: copies have classes {views[c]['cls']}/{views[c2]['cls']}"})
                     # masks: the copy keeps the selected vertices; large loops keep the loops the copied receivers refer to
